@@ -765,7 +765,11 @@ pub fn execute(plan: &Plan) -> Exec {
         let scfg = ServerCfg {
             dim: p.cfg.dim,
             metric: p.cfg.metric,
-            tenants: vec![TenantSpec { id: "acme".into(), key: key.clone(), max_vectors: 1_000_000, max_qps: 0, is_admin: false, enabled: true }],
+            // a second tenant that sorts first, so that the acting tenant's index is not 0 (global id != local id)
+            tenants: vec![
+                TenantSpec { id: "aaaa".into(), key: api_key("aaaa", 9), max_vectors: 10, max_qps: 0, is_admin: false, enabled: true },
+                TenantSpec { id: "acme".into(), key: key.clone(), max_vectors: 1_000_000, max_qps: 0, is_admin: false, enabled: true },
+            ],
             auth: true,
             rate_limit: false,
             data_dir: if p.cfg.persist { Some(data) } else { None },
